@@ -290,6 +290,12 @@ def run(ctx):
     rule_endpoints(ctx, r3)
     r4 = ctx.rule("R4", "`gwf info` reports the graph's own relations under the right labels", min_instances=5)
     rule_info(ctx, r4)
+    from .evalhelpers import cached_witness, report_witness, info_command_witness, workflow_api_witness
+    report_witness(r4, "src/gwf/plugins/info.py::info::witness-project", "src/gwf/plugins/info.py:1", cached_witness(ctx, "info-cmd", info_command_witness),
+                   "`gwf info`, `gwf info NAME` and a pattern matching nothing report exactly the (selected) targets with the graph's dependencies and dependents")
+    # "resolved against B's working directory": the directory a target resolves its paths against is the template's own when it declares one, else the workflow's
+    report_witness(r1, "src/gwf/workflow.py::Workflow::working-directory", "src/gwf/workflow.py:1", cached_witness(ctx, "workflow-api", workflow_api_witness),
+                   "direct and template targets get the workflow's directory, or the template's own when it declares one", select=lambda d: "working_dir" in d or "directory" in d)
     r5 = ctx.rule("R5", "flattening and accessors (shared with C01): the relation depends only on the declared path sets", min_instances=6)
     rule_flatten(ctx, r5)
     rule_shape_independence(ctx, r5)
